@@ -264,6 +264,15 @@ impl Pos {
         format!("{} {} {}", self.to_fen(), half, full)
     }
 
+    /// Six-field FEN with counters as a game in progress would have them: a function of the
+    /// position (so that the same position always gives the same text), half-move clock 0..99,
+    /// move number 1..900 - beyond 255 for a good quarter of the positions. The engine keeps
+    /// neither; a parser that stumbles over large counters shows only with such values.
+    pub fn to_fen_game(&self) -> String {
+        let h = crate::rng::hash64(&self.to_fen());
+        self.to_fen6(h % 100, 1 + (h / 128) % 900)
+    }
+
     pub fn king_sq(&self, c: Color) -> Option<u8> {
         (0..64u8).find(|&s| self.sq[s as usize] == Some((c, Kind::King)))
     }
